@@ -64,6 +64,7 @@ func (m *Mutex) Unlock() {
 		panic("sync: unlock of unlocked mutex")
 	}
 	m.locked = false
+	vsched.UnlockPoint("Mutex.Unlock")
 }
 
 // RWMutex with Go's writer preference: a Lock that has announced itself bars
@@ -122,6 +123,7 @@ func (m *RWMutex) Unlock() {
 		panic("sync: Unlock of unlocked RWMutex")
 	}
 	m.writer = false
+	vsched.UnlockPoint("RWMutex.Unlock")
 }
 
 func (m *RWMutex) RLock() {
@@ -165,6 +167,7 @@ func (m *RWMutex) RUnlock() {
 	if m.readers > 0 {
 		m.readers--
 	}
+	vsched.UnlockPoint("RWMutex.RUnlock")
 }
 
 func (m *RWMutex) RLocker() Locker { return (*rlocker)(m) }
